@@ -13,7 +13,7 @@ FUNCTIONS = [("pandapower.control.controller.trafo.DiscreteTapControl", "Discret
              ("pandapower.control.controller.trafo.ContinuousTapControl", "ContinuousTapControl.control_step"),
              ("pandapower.control.controller.trafo.ContinuousTapControl", "ContinuousTapControl.is_converged"),
              ("pandapower.control.controller.characteristic_control", "CharacteristicControl.is_converged"),
-             ("pandapower.control.run_control", "get_controller_order"), ("pandapower.control.run_control", "control_implementation"),
+             ("pandapower.control.run_control", "get_controller_order"), ("pandapower.control.run_control", "check_for_initial_run"), ("pandapower.control.run_control", "control_implementation"),
              ("pandapower.control.run_control", "_control_step"), ("pandapower.control.run_control", "check_final_convergence")]
 STUBS = ["read_from_net / write_to_net of the tap controllers -> the symbolic pre-state (bus voltage, tap position) and a capture of what is written",
          "loop harness: controllers are nondeterministic stubs whose is_converged returns a fresh symbolic Boolean per call; control_step and the "
@@ -149,6 +149,27 @@ def make_order(levels):
     return fn
 
 
+def make_initial_run(levels):
+    """an initial power flow is run iff some controller (of any level) asks for one: otherwise controllers judge convergence on stale results"""
+    def fn(ctx):
+        rc = ctx.load("pandapower.control.run_control")
+        n = len(levels)
+        flags = [bool(ctx.var(f"initial_run{i}", 0., 1.) >= 0.5) for i in range(n)]
+
+        class Net:
+            controller = pd.DataFrame({"initial_run": flags})
+
+        class Ctrl:
+            def __init__(self, i):
+                self.index = i
+        order = []
+        for lv in sorted(set(levels)):
+            order.append([(Ctrl(i), Net) for i in range(n) if levels[i] == lv])
+        got = rc.check_for_initial_run(order)
+        ctx.true("initial_power_flow_iff_some_controller_asks_for_it", bool(got) == any(flags))
+    return fn
+
+
 def make_loop(nctrl, max_iter):
     def fn(ctx):
         rc = ctx.load("pandapower.control.run_control")
@@ -255,6 +276,8 @@ def instances(tier):
     for n_, ap in ((1, True), (2, True), (1, False)):
         out.append(Inst(f"characteristic_{n_}el_applied{int(ap)}", make_characteristic(n_, ap), nvars=12, samples=3,
                         meta=dict(controller="CharacteristicControl", elements=n_, applied=ap)))
+    for lv in ((0, 0), (-1, 0), (0, 1, 1)):
+        out.append(Inst("initial_run_levels" + "_".join(map(str, lv)), make_initial_run(lv), nvars=8, samples=3, meta=dict(part="initial power flow decision", levels=lv)))
     out.append(Inst("order_one_level", make_order((0, 0, 0)), nvars=8, samples=3, meta=dict(levels=(0, 0, 0))))
     out.append(Inst("order_two_levels", make_order((1, 0, 1)), nvars=8, samples=3, meta=dict(levels=(1, 0, 1))))
     loops = [(1, 1), (1, 2), (2, 1), (2, 2)] + ([(2, 3), (3, 2)] if tier == "thorough" else [])
